@@ -342,6 +342,7 @@ inductive LineAct (α : Type) where
   | append (v : α)            -- data_all_subsets[-1].append(value)
   | insert (v : α)            -- data_all_subsets[-1].insert(-1, value)   (associated field)
   | fail                      -- literal_eval raises
+  deriving DecidableEq, Repr
 
 def ntClassify {α : Type} (ev : Line → Option α) (raw : Line) : LineAct α :=
   let line := lstripDotSpace (pyStrip raw)
